@@ -1,13 +1,17 @@
 #!/bin/sh
 # usage: tools/try_seed.sh <PROP> <patch.diff> [demo.py]
-# applies the patch to /repo, runs the check (no evidence written), reverts.
+# applies the patch to /repo (working tree only), runs the check (no evidence written), reverts.
 PROP="$1"; PATCH="$2"; DEMO="$3"
 cd /repo || exit 2
-if ! git diff --quiet; then echo "/repo has local changes; refusing"; exit 2; fi
-if ! git apply --check "$PATCH" 2>/dev/null; then echo "PATCH DOES NOT APPLY: $PATCH"; git apply --3way "$PATCH" 2>&1 | tail -2; fi
-git apply "$PATCH" 2>/dev/null || { echo "apply failed"; git checkout -- . ; exit 2; }
+if ! git diff --quiet || ! git diff --cached --quiet; then echo "/repo has local changes; refusing"; exit 2; fi
+if ! git apply "$PATCH" 2>/dev/null; then
+  echo "(git apply failed; trying patch -F3)"
+  if ! patch -p1 -F3 -s --no-backup-if-mismatch < "$PATCH"; then
+     echo "PATCH DOES NOT APPLY: $PATCH"; git checkout -- . ; find . -name '*.rej' -delete; find . -name '*.orig' -delete; exit 2
+  fi
+fi
 cd /verif && ./check "$PROP" --no-write | cut -c1-400
-RC=$?
 if [ -n "$DEMO" ]; then (cd /repo && timeout 300 /venv/bin/python "$DEMO" 2>&1 | tail -2); fi
 git -C /repo checkout -- .
+find /repo -name '*.rej' -delete; find /repo -name '*.orig' -delete
 git -C /repo status --short | head -3
